@@ -7,9 +7,52 @@ case kinds
   file       {"text"}                    parse_file(path / open file) == parse_string(content)
   history    {"text", "before"}          parse(text) in a fresh process == parse(text) after the calls `before`
   reject     {"text"}                    parse(text) raises ParseException
+  reuse      {"texts", "edit", "via"}    every text is parsed and the returned token tree is destroyed in place by the caller
+                                         (edit: pop-keyword / append / leaves / clear-top / clear-deep / reverse / all); parsing
+                                         the same texts again gives the same token trees, made of new objects; no result contains
+                                         one list object twice.  via = "file": the texts are written, one after the other, to the
+                                         SAME path and read with parse_file (a result must not be remembered under the file name)
 The dot-bracket of a strand-notation complex is compared up to blanks."""
-import json, os, subprocess, sys, tempfile, warnings
+import copy, inspect, json, os, subprocess, sys, tempfile, warnings
 warnings.simplefilter("ignore")
+
+EDITS = ["pop-keyword", "append", "leaves", "clear-top", "clear-deep", "reverse", "all"]
+
+
+def lists_of(x, acc):
+    """every list object of a token tree, parents before children"""
+    if isinstance(x, list):
+        acc.append(x)
+        for y in x:
+            lists_of(y, acc)
+    return acc
+
+
+def scribble(res, edit):
+    """what a consumer may do to a token tree it was given: the tree is its own"""
+    if not isinstance(res, list):
+        return
+    nodes = lists_of(res, [])
+    if edit in ("leaves", "all"):
+        for n in nodes:
+            for k, y in enumerate(n):
+                if isinstance(y, str):
+                    n[k] = y + "?"
+    if edit in ("append", "all"):
+        for n in nodes:
+            n.append("99")
+    if edit in ("pop-keyword", "all"):          # dispatching on the keyword by consuming it
+        for stmt in res:
+            if isinstance(stmt, list) and stmt:
+                stmt.pop(0)
+    if edit == "reverse":
+        for n in nodes:
+            n.reverse()
+    if edit == "clear-deep":
+        for n in reversed(nodes):
+            del n[:]
+    if edit == "clear-top":
+        del res[:]
 
 
 def norm_tree(t):
@@ -35,6 +78,26 @@ def main(dialect):
             return "<ParseException>"
         except Exception as e:          # noqa
             return f"<{type(e).__name__}>"
+
+    def call_raw(f, *a):
+        try:
+            return f(*a)
+        except ParseException:
+            return "<ParseException>"
+        except Exception as e:          # noqa
+            return f"<{type(e).__name__}>"
+
+    def reuse_snippet(c):
+        name = "parse_%s_%s" % (dialect, "file" if c.get("via") == "file" else "string")
+        body = ("def parse(t):\n    open('/tmp/c.txt', 'wb').write(t.encode('utf-8'))\n    return p('/tmp/c.txt')\n"
+                if c.get("via") == "file" else "parse = p\n")
+        return ("import copy\nfrom dsdobjects.dsdparser import %s as p\n" % name + inspect.getsource(lists_of) + inspect.getsource(scribble)
+                + body + "texts, edit = %r, %r\n" % (c["texts"], c.get("edit", "all")) +
+                "def run(t):\n    try: return parse(t)\n    except Exception as e: return type(e).__name__\n"
+                "first, mine = [], []\nfor t in texts:\n    r = run(t); first.append(copy.deepcopy(r)); mine += lists_of(r, [])\n"
+                "    scribble(r, edit)    # the caller's own tree\n"
+                "for t, want in zip(texts, first):\n    r = run(t)\n"
+                "    print('same tree:', r == want, ' new objects:', not any(x is y for x in lists_of(r, []) for y in mine), repr(t), r, 'first time:', want)\n")
 
     req = json.load(sys.stdin)
     fails, checked = [], {}
@@ -93,4 +156,50 @@ def main(dialect):
             if got != fresh:
                 fails.append({"kind": k, "text": c["text"], "before": c["before"], "expected": fresh, "observed": got,
                               "what": "the result depends on earlier parser calls in the process"})
+        elif k == "reuse":
+            texts, edit, via = c["texts"], c.get("edit", "all"), c.get("via", "string")
+            path = None
+            if via == "file":
+                fd, path = tempfile.mkstemp(prefix="c13_", suffix=".pil")
+                os.close(fd)
+
+            def parse(t):
+                if path is None:
+                    return call_raw(parse_string, t)
+                with open(path, "wb") as f:
+                    f.write(t.encode("utf-8"))
+                return call_raw(parse_file, path)
+
+            def fail(j, want, got, what):
+                fails.append({"kind": k, "text": texts[j], "texts": texts, "edit": edit, "via": via, "expected": want, "observed": got,
+                              "what": what, "snippet": reuse_snippet(c)})
+            try:
+                snaps, keep, bad = [], [], False
+                for j, t in enumerate(texts):
+                    r = parse(t)
+                    ls = lists_of(r, [])
+                    snaps.append(norm(copy.deepcopy(r)))
+                    if len({id(x) for x in ls}) != len(ls):
+                        fail(j, "a tree of distinct lists", snaps[j], "one list object occurs twice in a returned token tree "
+                             "(changing one statement changes another)")
+                        bad = True
+                        break
+                    keep.append(ls)                 # keeps every handed-out list alive: ids stay unique
+                    scribble(r, edit)
+                old = {id(x) for ls in keep for x in ls}
+                for j, t in enumerate(texts):
+                    if bad:
+                        break
+                    again = parse(t)
+                    got = norm(copy.deepcopy(again))
+                    if got != snaps[j]:
+                        fail(j, snaps[j], got, "parsing the same text again, after the caller modified the token tree it was given "
+                             f"({edit}), returns a different token tree")
+                        bad = True
+                    elif any(id(x) in old for x in lists_of(again, [])):
+                        fail(j, "new objects", got, "a later call returns list objects that belong to an earlier result")
+                        bad = True
+            finally:
+                if path is not None:
+                    os.unlink(path)
     json.dump({"failures": fails, "checked": checked}, sys.stdout)
